@@ -18,6 +18,8 @@ mod args;
 mod gen_;
 #[path = "../c17/runners.rs"]
 mod runners;
+#[path = "../c17/unicode.rs"]
+mod unicode;
 
 use args::A;
 use gen_::Gen;
@@ -64,6 +66,20 @@ fn lean_requests(name: &str, a: &[A]) -> (Option<String>, Option<String>) {
         Some(("StringBytes", m)) => ("bytes", m),
         Some(("StringChars", m)) => ("chars", m),
         Some(("StringLines", m)) => ("lines", m),
+        Some(("StringBuf", m)) if m.contains('#') => {
+            // an operation history: every read is observed
+            let t = a[0].s();
+            let mut req = if t.starts_with('N') { "c17 bufseq new".to_string() } else { format!("c17 bufseq from:{}", x(1)) };
+            let (cs, ss) = ([a[2].c(), a[3].c()], [a[4].s(), a[5].s()]);
+            for e in runners::buf_events(t, cs, ss) {
+                match e {
+                    runners::BufEv::C(c) => req.push_str(&format!(" c:{}", c as u32)),
+                    runners::BufEv::S(s) => req.push_str(&format!(" s:x{}", rotov_harness::driver::hex(&s))),
+                    runners::BufEv::Read => req.push_str(" r"),
+                }
+            }
+            return (Some(req), None);
+        }
         Some(("StringBuf", _)) => {
             // template encoded in the args: S init, then alternating pushes
             let mut req = if name == "StringBuf.new" { "c17 buf new".to_string() } else { format!("c17 buf from:{}", x(0)) };
@@ -101,6 +117,15 @@ fn canon_lean(name: &str, spec: bool, ans: &str) -> String {
     let m = name.split('.').nth(1).unwrap_or("");
     let w: Vec<&str> = ans.split(' ').collect();
     let bad = || format!("<unparsed lean answer: {ans}>");
+    if name.starts_with("StringBuf") && name.contains('#') {
+        return match w.as_slice() {
+            ["list", rest @ ..] => {
+                let v: Option<Vec<String>> = rest.iter().map(|x| unhex(x)).collect();
+                v.map(|v| format!("[{}]", v.iter().map(|s| format!("{s:?}")).collect::<Vec<_>>().join(", "))).unwrap_or_else(bad)
+            }
+            _ => bad(),
+        };
+    }
     if name.starts_with("StringBuf") {
         return unhex(ans).map(|s| format!("{s:?}")).unwrap_or_else(bad);
     }
@@ -175,8 +200,9 @@ fn run_cases(rep: &mut Report, drv: &mut Option<Driver>, r: &Runner, f: &Callabl
         let got = f(&c.args);
         let want = (r.oracle)(&c.args);
         rep.evaluations += 1;
-        rep.hist("builtin", r.name);
-        rep.hist(&format!("{} outcome", r.name), outcome_class(&got));
+        let hname = r.name.split('#').next().unwrap_or(r.name);
+        rep.hist("builtin", hname);
+        rep.hist(&format!("{hname} outcome"), outcome_class(&got));
         for a in &c.args {
             if let Some((h, b)) = a.hist() {
                 rep.hist(h, b);
@@ -184,7 +210,11 @@ fn run_cases(rep: &mut Report, drv: &mut Option<Driver>, r: &Runner, f: &Callabl
         }
         rep.class(format!("{} {} {}", r.name, c.class, outcome_class(&got)));
         if got != want {
-            let key = format!("{} {}", r.name, c.class);
+            let key = if r.name.contains('#') {
+                format!("StringBuf.as_string history {}", runners::buf_diagnose(&c.args, &got))
+            } else {
+                format!("{} {}", r.name, c.class)
+            };
             let seen = per_key.entry(key.clone()).or_insert(0u32);
             *seen += 1;
             if *seen > 1 {
@@ -286,6 +316,13 @@ fn worker_main(seed: u64, tier: &str, from: usize, n: usize, only_trace: bool) {
                 cases.push(Case { args, class });
             }
         }
+        // then the class representatives of this built-in's argument classes
+        for args in gen_::reps(r.name) {
+            let class = gen_::classify(r.name, &args);
+            cases.push(Case { args, class });
+        }
+        // histories are many runners with one Lean request per call: fewer tuples each
+        let count = if r.name.contains('#') { (count / 10).clamp(24, 1500) } else { count };
         for k in 0..count {
             let args = g.args(&r.gen_, k);
             let class = gen_::classify(r.name, &args);
@@ -326,7 +363,8 @@ fn coverage_check(rep: &mut Report, rs: &[Runner]) {
             }
         }
     }
-    let covered: std::collections::BTreeSet<&str> = rs.iter().map(|r| r.name).collect();
+    // `Built.in#history` runners cover `Built.in`
+    let covered: std::collections::BTreeSet<&str> = rs.iter().map(|r| r.name.split('#').next().unwrap_or(r.name)).collect();
     let mut missing = vec![];
     for r in &registered {
         if !covered.contains(r.as_str()) {
@@ -418,6 +456,9 @@ fn main() {
                 from = last + 1;
                 batch = 16;
             }
+            // one defect = one key: histories share diagnosis keys across runners; keep the first (shortest) witness
+            let mut seen_keys = std::collections::HashSet::new();
+            rep.impl_violations.retain(|v| seen_keys.insert(v["key"].as_str().unwrap_or("").to_string()));
             rep.emit();
         }
         "replay" => {
